@@ -19,7 +19,7 @@ class C09(Spec):
             "with -fsanitize=thread; 1-12 client threads each keep one connection and send 5-300 numbered requests rotating "
             "over the four tabled methods and PATCH/OPTIONS (no table); every response must carry its own request's method and "
             "number (404/405 for the table-less methods); shutdown() is called after the load or 0-200 ms into it and must "
-            "return with every framework thread gone; shutdown() right after serveThreaded() (I cases: the workers may not have entered their loops) with the threads counted BEFORE the endpoint is destroyed. A ThreadSanitizer report ends the case as CRASH exit=97. "
+            "return with every framework thread gone; shutdown() right after serveThreaded() (I cases: the workers may not have entered their loops) with the threads counted BEFORE the endpoint is destroyed; the blocking serve() on a thread of its own, polled with isBound()/getPort() from another thread (B cases); Endpoint::requestLoad asked 200-300 times in a row while four clients keep the workers busy (R cases). A ThreadSanitizer report ends the case as CRASH exit=97. "
             "non-trivial = more than one worker and more than one client; distinct by case line")
     assumptions = ["the interleavings explored are those the OS scheduler produces on this machine (ThreadSanitizer observes, it does not enumerate)",
                    "ThreadSanitizer sees races only on executed paths and does not model std::atomic fences of every kind (false negatives possible)",
@@ -31,7 +31,7 @@ class C09(Spec):
         return impl == model
 
     def corpus(self):
-        return ["M 3 6 60 -1", "M 2 4 200 30", "M 1 2 20 0", "M 4 8 100 50", "I 1", "I 2", "I 4", "I 8", "I 3", "I 6"]
+        return ["M 3 6 60 -1", "M 2 4 200 30", "M 1 2 20 0", "M 4 8 100 50", "I 1", "I 2", "I 4", "I 8", "I 3", "I 6", "B 1", "B 2", "B 4", "B 2", "B 1", "R 4 300", "R 2 300", "R 1 200"]
 
     def gen(self, rng, tier):
         cases = []
@@ -50,6 +50,14 @@ class C09(Spec):
             return "multi-threaded harness %s on %s" % (impl, case)
         t = case.split()
         f = dict(x.split("=") for x in impl.split()[1:])
+        if t[0] == "R":
+            if f["lost"] != "0" or f["got"] != t[2]:
+                return "Endpoint::requestLoad asked %s times in a row under load: %s answered, %s never answered (%s)" % (t[2], f["got"], f["lost"], case)
+            return None
+        if t[0] == "B":
+            if impl != "B bound=1 answered=1 returned=1":
+                return "blocking serve() on its own thread, polled with isBound()/getPort() from another: %s (%s)" % (impl, case)
+            return None
         if t[0] == "I":
             if f["threads_left"] != "0":
                 return ("shutdown() right after serveThreaded() with %s worker(s): %s framework thread(s) were still alive 3 s after it had "
@@ -67,12 +75,16 @@ class C09(Spec):
 
     def nontrivial(self, case, impl):
         t = case.split()
-        return int(t[1]) > 1 and (t[0] == "I" or int(t[2]) > 1)
+        return int(t[1]) > 1 and (t[0] in "IBR" or int(t[2]) > 1)
 
     def kind(self, case, impl):
         t = case.split()
         if t[0] == "I":
             return "w%s-shutdown-at-once" % t[1]
+        if t[0] == "B":
+            return "w%s-blocking-serve-polled" % t[1]
+        if t[0] == "R":
+            return "w%s-load-asked-repeatedly" % t[1]
         return "w%s-%s" % (t[1], "shutdown-under-load" if int(t[4]) >= 0 else "full-load")
 
 
